@@ -217,6 +217,9 @@ def rule_C08(env):
                 res.add("R08.a", "generate_internal/memo-not-cleared", "a generation call uses the simulated memo before clearing it", loc)
             if g.h.proto_emitted.value is not None:
                 res.add("R08.a", "generate_internal/proto_emitted-not-reset", "a generation call reads State.proto_emitted before resetting it", loc)
+            for fld in g.h.extra_scratch_read_at_entry():
+                res.add("R08.a", "generate_internal/state.%s-read-before-reset" % fld,
+                        "a generation call reads State.%s as left by the previous call (it is not reset at the start of the call)" % fld, loc)
             ch = g.h.config_changes()
             if ch:
                 res.add("R08.c", "generate_internal/config-written/%s" % ",".join(ch), "generate_internal overwrites configuration field(s) %s" % ch, loc)
@@ -248,6 +251,8 @@ def rule_C08(env):
         pe_v = st.fields[ctx.field_index(ctx.state_adt, "proto_emitted")]
         if pe_v is not False:
             res.add("R08.b", "reset/state.proto_emitted", "Generator::reset does not reset state.proto_emitted", env.loc(k_reset))
+        for fld in h.extra_scratch_unchanged():
+            res.add("R08.b", "reset/state.%s" % fld, "Generator::reset does not reset State.%s (per-pickle scratch state)" % fld, env.loc(k_reset))
         if h.config_changes():
             res.add("R08.c", "reset/config-written", "Generator::reset overwrites configuration field(s) %s" % h.config_changes(), env.loc(k_reset))
     res.floor("R08.b", 1, "reset leaves")
